@@ -3,7 +3,7 @@
 //!
 //! `tlvview`:  `view <hex> <lookups>`
 //! `tlv`:      `msg <new|sorted|slice> <cow|str|ref|h> <tag:kind:payload,...|->`
-//!             (kinds: b/o = borrowed/owned bytes, m = message in slot <payload>,
+//!             (kinds: b/o = borrowed/owned bytes, m = message in slot <payload>, v = MessageView of that slot's encoding,
 //!              f = value whose rough_tlv_len reports <payload>, never encoded)
 //!             `enc <slot> <iov|hcobs>`
 use crate::util::*;
@@ -495,6 +495,8 @@ impl Family for TlvViewFamily {
 enum HVal {
     B(Cow<'static, [u8]>),
     M(Rc<Slot>),
+    /// a received message re-used as a value (`impl ToRoughTLV for MessageView`)
+    W(MessageView<'static>),
     F(usize),
 }
 
@@ -507,6 +509,7 @@ impl ToRoughTLV<'static> for HVal {
         match self {
             HVal::B(c) => c.to_rough_tlv(sink),
             HVal::M(s) => s.msg.write(sink),
+            HVal::W(v) => v.to_rough_tlv(sink),
             HVal::F(_) => panic!("a fake-length value must never be encoded"),
         }
     }
@@ -514,6 +517,7 @@ impl ToRoughTLV<'static> for HVal {
         match self {
             HVal::B(c) => c.rough_tlv_len(),
             HVal::M(s) => s.msg.tlv_len(),
+            HVal::W(v) => v.rough_tlv_len(),
             HVal::F(n) => *n,
         }
     }
@@ -606,7 +610,7 @@ fn kind_allowed(vt: &str, k: &str) -> bool {
     match vt {
         "cow" | "str" => k == "b" || k == "o",
         "ref" => k == "b",
-        "h" => matches!(k, "b" | "o" | "m" | "f"),
+        "h" => matches!(k, "b" | "o" | "m" | "v" | "f"),
         _ => false,
     }
 }
@@ -684,6 +688,13 @@ impl TlvExec {
                 let slot = self.slots.get(i)?.clone()?;
                 Some(Item { tag, kind: 'm', len: slot.msg.tlv_len() as u128, bytes: slot.reference.clone(), slot: Some(slot) })
             }
+            "v" => {
+                // the view of the slot's encoding, as a value; only for encodable slots
+                let i = payload.parse::<usize>().ok()?;
+                let slot = self.slots.get(i)?.clone()?;
+                let r = slot.reference.clone()?;
+                Some(Item { tag, kind: 'v', len: r.len() as u128, bytes: Some(r), slot: Some(slot) })
+            }
             _ => {
                 let n = payload.parse::<usize>().ok()?;
                 Some(Item { tag, kind: 'f', len: n as u128, bytes: None, slot: None })
@@ -746,6 +757,20 @@ impl TlvExec {
                         'b' => HVal::B(Cow::Borrowed(self.stash(x.bytes.as_ref().unwrap()))),
                         'o' => HVal::B(Cow::Owned(x.bytes.clone().unwrap())),
                         'm' => HVal::M(x.slot.clone().unwrap()),
+                        'v' => {
+                            // what a peer would do: receive the bytes (here: through the real encoder) and wrap them
+                            let mut iov: OwningIovec<'static> = OwningIovec::new();
+                            x.slot.as_ref().unwrap().msg.write(&mut iov);
+                            let wire = iov.flatten().unwrap_or_else(|e| e);
+                            match MessageView::new(Cow::Owned(wire)) {
+                                Ok(v) => HVal::W(v),
+                                Err(_) => {
+                                    let mut so = StepOut::obs("view-rejects-encoder-output");
+                                    so.violations.push("C11 MessageView rejects the encoder's output".into());
+                                    return so;
+                                }
+                            }
+                        }
                         _ => HVal::F(x.len as usize),
                     };
                     v.push((Tag::new_from_u32(x.tag), val));
@@ -1046,7 +1071,8 @@ impl Family for TlvFamily {
                 let usable: Vec<usize> = (0..slots.len()).filter(|i| slots[*i].valid && slots[*i].depth < 3).collect();
                 if vt == "h" && !usable.is_empty() && rng.chance(1, 4) {
                     let i = *rng.pick(&usable);
-                    items.push((tag, format!("m:{}", i), slots[i].len, slots[i].fake, slots[i].depth));
+                    let k = if !slots[i].fake && rng.chance(1, 4) { "v" } else { "m" };
+                    items.push((tag, format!("{}:{}", k, i), slots[i].len, slots[i].fake, slots[i].depth));
                 } else if limits && rng.chance(1, 2) {
                     let len: u128 = match rng.below(8) {
                         0 => I32MAX,
